@@ -129,6 +129,7 @@ static int jerasure_rs_vand_reconstruct(void *desc, char **data, char **parity,
         erased = jerasure_desc->jerasure_erasures_to_erased(jerasure_desc->k,
                 jerasure_desc->m, missing_idxs);
         if (NULL == decoding_matrix || NULL == dm_ids || NULL == erased) {
+            ret = -ENOMEM;
             goto out;
         }
 
